@@ -29,13 +29,24 @@ C02 — Output is exactly the encoded instruction stream of the source.
   Unbounded runs of blanks and comment bodies are handled by induction on the
   real interpreter (`LayoutSkip`), statement cores by the window interpreter
   evaluated in the kernel per table row and per following character (`LayoutTable`).
-Not proved at text level: layouts of programs with labels, macros and directives
-(the correspondence run renders every generated program in random legal layouts).
+* `C02_text`: from TEXT to BYTES for every macro-free program (`Asm/ProgText.lean`:
+  plain instructions, `pushN <expression>`, `%push(<expression>)`, label
+  definitions, each with any legal layout; operand expressions are arbitrary
+  term/operator sequences with literals in four radixes, negative literals,
+  labels, nested parentheses and blanks): `Ingest::preprocess` of the text touches
+  no file and yields one raw op per statement, and the assembler returns bytes
+  exactly when the item-level specification `Spec.assembleItems` does on the
+  statements' items — the same bytes.  So `C02_concat` / `C02_pushN` (and the
+  item-level theorems of C01, C07, C09) are statements about source text for this
+  family.
+Not proved at text level: programs with macros and directives (the
+correspondence run renders every generated program in random legal layouts).
 -/
 import EtkVerif.Asm.Corollaries
 import EtkVerif.Asm.SuffixIndep
 import EtkVerif.Asm.LayoutPest
 import EtkVerif.Asm.ListingAsm
+import EtkVerif.Asm.ProgTextAsm
 namespace EtkVerif.C02
 open Asm
 
@@ -94,5 +105,16 @@ example : Layout.WF [⟨[32, 32], some [32, 59, 32, 112, 99], false⟩]
     [⟨[32], ⟨0x60, [0]⟩, .semi [32] [9]⟩,
      ⟨[], ⟨0x00, []⟩, .line [32] (some [59, 32, 103, 97, 115]) true [⟨[], none, false⟩]⟩,
      ⟨[], ⟨0x5f, []⟩, .open_ [] (some [59])⟩] := by decide
+
+open Asm.Layout Asm.ProgText in
+/-- text → raw ops → bytes for macro-free programs: the assembler's answer on the TEXT is the item-level
+specification's answer on the statements' items -/
+theorem C02_text (fs : FS) (cwd : PathC) (prog : Program) (tr : List Event) (rnd : Nat → Nat) (k : Nat)
+    (head : List BlankLine) (items : List ProgText.Item) (h : ProgText.WF head items)
+    (fuel : Nat) (hf : items.length + 3 ≤ fuel) (bytes : List Nat) (k' : Nat) :
+    preprocess fs cwd fuel prog (ProgText.render head items) tr = .ok (items.map (fun x => RawOp.op x.stmt.aop), tr) ∧
+    (assemble rnd fuel { fresh := k } (RawOps.ofList (items.map (fun x => RawOp.op x.stmt.aop))) = .ok (bytes, k') ↔
+      (Spec.assembleItems [] (items.map (fun x => x.stmt.item)) = .ok bytes ∧ k' = k)) :=
+  ⟨preprocess_prog fs cwd prog tr head items h fuel (by omega), assemble_prog rnd fuel k items hf bytes k'⟩
 
 end EtkVerif.C02
